@@ -43,6 +43,23 @@ CHECKS = {
         "discarded, decimals compared with tolerance 1e-9.",
         "DESIGN.md section 5 C02",
     ),
+    "C04": (
+        "property-based differential testing of generated control-flow "
+        "programs against the reference evaluator, with an in-program trace; "
+        "comprehension == explicit loop as a metamorphic relation; mutant "
+        "models as non-triviality measure",
+        "Generated loop nests with exits at every kind of position, logging "
+        "if/elif ladders, iteration over every iterable kind and every "
+        "comprehension form are run by the interpreter and by the reference "
+        "evaluator; trace and results must agree. For each program six "
+        "mutant models (break leaves two loops, continue = break, while "
+        "tested once, first branch, insertion order, filter ignored) are "
+        "also run and the kill counts reported, so that the evidence shows "
+        "how many programs can tell the stated semantics from wrong ones.",
+        "Trusted: the reference evaluator; loop statement values and loop "
+        "variables after the loop are never observed.",
+        "DESIGN.md section 5 C04",
+    ),
     "C06": (
         "property-based testing (Hypothesis): equivalence laws, hash "
         "consistency and agreement with a model equality on the ckl.values "
